@@ -459,7 +459,7 @@ func opAdminNoise(g *G) bool {
 			rem = []int{g.user()}
 		}
 		note := "class issuers add/remove"
-		if g.R.Chance(1, 6) {
+		if g.R.Chance(1, 3) {
 			rem = []int{add[0]}
 			note = "class issuers: add and remove the same address in one message"
 			g.bump("dup:issuers-add-and-remove-same-address")
